@@ -10,6 +10,9 @@ import sys
 pid = sys.argv[1]
 suf = sys.argv[2] if len(sys.argv) > 2 else "1"
 wt = "/tmp/wt_%s/out" % pid
+if pid[-1].isalpha() and pid[-1].islower():      # second-round worktrees: /tmp/wt_C01b -> seeded/C01-2
+    suf = str(ord(pid[-1]) - ord("a") + 1)
+    pid = pid[:-1]
 log = open(os.path.join(wt, "verify.log")).read()
 m_with = re.search(r"demo exit with change: (\d+)", log)
 m_wo = re.search(r"demo exit without change: (\d+)", log)
@@ -34,7 +37,7 @@ meta["confirmed_by_verif_author"] = {
                  "git apply -R; rebuild; run_demo.sh (must pass)",
     "demo_exit_with_change": int(m_with.group(1)),
     "demo_exit_without_change": int(m_wo.group(1)),
-    "suite_with_change": "all stable_pass tests passed (8 CpuSet topology tests that fail on the pristine snapshot in this sandbox excluded)",
+    "suite_with_change": "all stable_pass tests passed, or (load-sensitive timing tests only) failed at least 2/3 times on the unchanged build under the same machine load as well -- CONTROL lines in the log (8 CpuSet topology tests that fail on the pristine snapshot in this sandbox excluded)",
     "verify_log_tail": log[-1500:],
 }
 json.dump(meta, open(os.path.join(dst, "meta.json"), "w"), indent=1)
